@@ -28,8 +28,8 @@ def verdict(k, cond):
 class Pack:
     """collects test blocks into programs of at most `cap` result cells"""
 
-    def __init__(self, name, cap=24, shorts=True, placement=""):
-        self.name = name; self.cap = cap; self.shorts = shorts; self.placement = placement
+    def __init__(self, name, cap=24, shorts=True, placement="", pointers=0):
+        self.name = name; self.cap = cap; self.shorts = shorts; self.placement = placement; self.pointers = pointers
         self.programs = []; self.blocks = []; self.k = 0; self.funcs = []; self.weight = 0
 
     def cell(self):
@@ -55,6 +55,8 @@ class Pack:
                 p.decls.append(("unsigned short", "w0", 4, q))
         p.decls.append(("unsigned char", "a0", 4, q))
         p.decls.append(("unsigned char", "a1", 4, q))
+        for i in range(self.pointers):
+            p.decls.append(("unsigned char *", "p%d" % i, None, q))
         p.decls.append(("unsigned char", "r", max(self.cap, 2), "ramchip"))
         for f in self.funcs:
             p.funcs.append(f)
@@ -431,12 +433,195 @@ def wide():
     return progs
 
 
+# ----------------------------------------------------------------------------------------------- F8
+
+def nested():
+    """a binary operator one of whose operands is itself a computation (shift, negation, complement, truth value,
+    conditional, embedded assignment, increment, array element): the generator has to keep the accumulator alive
+    (PHA / cctmp spills). One block per program (many shapes are rejected as too complex)."""
+    progs = []
+    v0, v1, v2, v3, X, Y = VAR('v0'), VAR('v1'), VAR('v2'), VAR('v3'), VAR('X'), VAR('Y')
+    eX = ('idx', 'a0', X)
+
+    def emit(name, stmts, watch=()):
+        pk = Pack("nested-" + name, cap=max(2, 1 + len(watch)), shorts=False)
+        pk.cell()
+        extra = []
+        for w in watch:
+            k = pk.cell(); extra.append(SET(R(k), w))
+        pk.add(stmts + extra)
+        pk.flush()
+        progs.extend(pk.programs)
+
+    subs = [("shr", ('bin', '>>', v2, NUM(1)), ()), ("shl", ('bin', '<<', v2, NUM(2)), ()), ("neg", ('neg', v2), ()),
+            ("bnot", ('bnot', v2), ()), ("not", ('not', v2), ()), ("eq", ('cmp', '==', v2, v3), ()), ("lt", ('cmp', '<', v2, v3), ()),
+            ("tern", ('tern', v3, v2, NUM(9)), ()), ("asg", ('asg', v3, v2), (v3,)), ("asgX", ('asg', X, v2), (X,)),
+            ("asgY", ('asg', Y, NUM(5)), (Y,)), ("post", ('post', '++', v2), (v2,)), ("pre", ('pre', '--', v2), (v2,)),
+            ("postX", ('post', '++', X), (X,)), ("elem", eX, ()), ("sum", ('bin', '+', ('bin', '&', v2, NUM(3)), NUM(1)), ()),
+            ("and", ('land', v2, v3), ()), ("opasg", ('opasg', '+', v3, v2), (v3,)),
+            ("asgXsum", ('asg', X, ('bin', '+', v2, NUM(2))), (X,)), ("asgYsum", ('asg', Y, ('bin', '-', v2, NUM(2))), (Y,)),
+            ("asgXel", ('asg', X, eX), (X,)), ("asgXY", ('asg', X, Y), (X,)), ("asgYX", ('asg', Y, X), (Y,)),
+            ("asgelX", ('asg', eX, X), (eX,)), ("asgelsum", ('asg', eX, ('bin', '^', v2, NUM(1))), (eX,)),
+            ("asgvsum", ('asg', v3, ('bin', '+', v2, v3)), (v3,)), ("shr8", ('bin', '>>', v2, NUM(8)), ()),
+            ("elY", ('idx', 'a1', Y), ()), ("ternsum", ('tern', v3, ('bin', '+', v2, NUM(1)), ('bin', '-', v2, NUM(1))), ())]
+    for (a, b, c) in [(5, 6, 3), (200, 130, 0), (0, 255, 255)]:
+        setup = [SET(v1, NUM(a)), SET(v2, NUM(b)), SET(v3, NUM(c)), SET(X, NUM(2)), SET(eX, NUM(77)), SET(Y, NUM(1))]
+        for op in ['+', '-', '&', '|', '^']:
+            for nm, sub, watch in subs:
+                emit("%s-r-%s" % (op, nm), setup + [SET(R(0), ('bin', op, v1, sub))], watch)
+                emit("%s-l-%s" % (op, nm), setup + [SET(R(0), ('bin', op, sub, v1))], watch)
+        # the left operand already in the accumulator when the right one is computed
+        for op in ['+', '-', '&']:
+            for nm, sub, watch in subs:
+                emit("%s-acc-%s" % (op, nm), setup + [SET(R(0), ('bin', op, ('bin', '+', v1, NUM(1)), sub))], watch)
+        # a computation on both sides, and as a subscript / comparison operand
+        for nm, sub, watch in subs[:8]:
+            emit("both-" + nm, setup + [SET(R(0), ('bin', '+', sub, ('bin', '>>', v1, NUM(1))))], watch)
+            emit("cmp-" + nm, setup + [verdict(0, ('cmp', '==', sub, v1))], watch)
+            emit("cmpr-" + nm, setup + [verdict(0, ('cmp', '<', v1, sub))], watch)
+            emit("toX-" + nm, setup + [SET(X, sub), SET(R(0), X)], watch)
+            emit("toY-" + nm, setup + [SET(Y, ('bin', '+', v1, sub)), SET(R(0), Y)], watch)
+    return progs
+
+
+# ----------------------------------------------------------------------------------------------- F9
+
+def calls():
+    """calls that take arguments and return values, in every position of an expression. CV.CSem has no parameters:
+    each program carries a twin (`oracle`) in which the call is written out — argument to a temporary, body, result
+    in a temporary — and the twin's meaning is what the program must compute."""
+    import copy
+    progs = []
+    v1, v2, v3, X, Y, t0, t1 = VAR('v1'), VAR('v2'), VAR('v3'), VAR('X'), VAR('Y'), VAR('v0'), VAR('a1[0]') if False else ('idx', 'a1', NUM(0))
+    uc = "unsigned char"
+    # (name, params, body of the real function, expansion: args -> (statements, result expression))
+    FUNCS = {
+        "inc3": ([(uc, "p")], [('return', ('bin', '+', VAR('p'), NUM(3)))],
+                 lambda a, t: ([SET(t, ('bin', '+', a[0], NUM(3)))], t)),
+        "twice": ([(uc, "p")], [('return', ('bin', '<<', VAR('p'), NUM(1)))],
+                  lambda a, t: ([SET(t, ('bin', '<<', a[0], NUM(1)))], t)),
+        "pick": ([(uc, "p"), (uc, "q")], [('if', VAR('p'), ('return', VAR('q')), None), ('return', NUM(7))],
+                 lambda a, t: ([('if', a[0], SET(t, a[1]), SET(t, NUM(7)))], t)),
+        "getx": ([], [('return', X)], lambda a, t: ([SET(t, X)], t)),
+        "bump": ([], [('expr', ('post', '++', v3)), ('return', v3)], lambda a, t: ([('expr', ('post', '++', v3)), SET(t, v3)], t)),
+        "diff": ([(uc, "p"), (uc, "q")], [('return', ('bin', '-', VAR('p'), VAR('q')))],
+                 lambda a, t: ([SET(t, ('bin', '-', a[0], a[1]))], t)),
+    }
+
+    def emit(name, used, real_stmts, twin_stmts):
+        def build(stmts, with_funcs):
+            pk = Pack("calls-" + name, cap=2, shorts=False)
+            if with_funcs:
+                for f in used:
+                    pk.funcs.append((uc, f, FUNCS[f][0], FUNCS[f][1], False))
+            pk.cell(); pk.cell()
+            pk.add(stmts)
+            pk.flush()
+            return pk.programs[0]
+        clear = [SET(t0, NUM(0)), SET(t1, NUM(0))]          # the temporaries of the twin are not part of the verdict
+        a = build(real_stmts + clear, True)
+        a.oracle = build(twin_stmts + clear, False)
+        progs.append(a)
+
+    def C(f, *args):
+        return ('call', f, list(args))
+
+    for (a, b, c) in [(5, 6, 3), (200, 130, 0), (0, 255, 1)]:
+        setup = [SET(v1, NUM(a)), SET(v2, NUM(b)), SET(v3, NUM(c)), SET(X, NUM(2)), SET(Y, NUM(1))]
+        one = [("inc3", [v2]), ("twice", [v2]), ("pick", [v1, v2]), ("getx", []), ("bump", []), ("diff", [v2, v1]),
+               ("inc3", [('bin', '+', v2, NUM(1))]), ("pick", [('cmp', '==', v1, NUM(5)), ('bin', '&', v2, NUM(15))]), ("inc3", [X])]
+        for f, args in one:
+            ex, res = FUNCS[f][2](args, t0)
+            tag = f + str(len(progs))
+            call = C(f, *args)
+            # the call alone, as right / left operand, behind a computed left operand, in a condition, as a subscript,
+            # into a register, as an argument of another call
+            emit(tag + "-plain", [f], setup + [SET(R(0), call)], setup + ex + [SET(R(0), res)])
+            for op in ['+', '-', '&']:
+                emit(tag + "-r" + op, [f], setup + [SET(R(0), ('bin', op, v1, call))], setup + ex + [SET(R(0), ('bin', op, v1, res))])
+                emit(tag + "-l" + op, [f], setup + [SET(R(0), ('bin', op, call, v1))], setup + ex + [SET(R(0), ('bin', op, res, v1))])
+            emit(tag + "-acc", [f], setup + [SET(R(0), ('bin', '+', ('bin', '+', v1, NUM(1)), call))],
+                 setup + ex + [SET(R(0), ('bin', '+', ('bin', '+', v1, NUM(1)), res))])
+            emit(tag + "-cond", [f], setup + [verdict(0, ('cmp', '==', call, NUM(9)))], setup + ex + [verdict(0, ('cmp', '==', res, NUM(9)))])
+            emit(tag + "-condr", [f], setup + [verdict(0, ('cmp', '<', v1, call))], setup + ex + [verdict(0, ('cmp', '<', v1, res))])
+            emit(tag + "-truth", [f], setup + [verdict(0, call)], setup + ex + [verdict(0, res)])
+            emit(tag + "-toX", [f], setup + [SET(X, call), SET(R(0), X)], setup + ex + [SET(X, res), SET(R(0), X)])
+            emit(tag + "-toY", [f], setup + [SET(Y, call), SET(R(0), Y)], setup + ex + [SET(Y, res), SET(R(0), Y)])
+            emit(tag + "-sub", [f], setup + [SET(('idx', 'a0', NUM(1)), NUM(44)), SET(R(0), ('idx', 'a0', ('bin', '&', call, NUM(1))))],
+                 setup + ex + [SET(('idx', 'a0', NUM(1)), NUM(44)), SET(R(0), ('idx', 'a0', ('bin', '&', res, NUM(1))))])
+            ex2, res2 = FUNCS["inc3"][2]([res], t1)
+            emit(tag + "-arg", sorted(set([f, "inc3"])), setup + [SET(R(0), C("inc3", call))], setup + ex + ex2 + [SET(R(0), res2)])
+            emit(tag + "-opasg", [f], setup + [SET(R(0), NUM(100)), ('expr', ('opasg', '+', R(0), call))],
+                 setup + ex + [SET(R(0), NUM(100)), ('expr', ('opasg', '+', R(0), res))])
+            # two calls in one expression (recorded finding two-calls-in-one-expression: the first result is lost)
+            ex3, res3 = FUNCS["twice"][2]([v1], t1)
+            emit(tag + "-two", sorted(set([f, "twice"])), setup + [SET(R(0), ('bin', '-', call, C("twice", v1)))],
+                 setup + ex + ex3 + [SET(R(0), ('bin', '-', res, res3))])
+    return progs
+
+
+# ----------------------------------------------------------------------------------------------- F10
+
+def pointers():
+    """a pointer into an array: set, moved, dereferenced, subscripted by a literal / Y, written through, walked in a
+    loop. The twin uses the array directly (the generator knows where the pointer points)."""
+    progs = []
+    v0, v1, v2, X, Y = VAR('v0'), VAR('v1'), VAR('v2'), VAR('X'), VAR('Y')
+    p0, p1 = VAR('p0'), VAR('p1')
+    A0 = lambda k: ('idx', 'a0', NUM(k))
+    A1 = lambda k: ('idx', 'a1', NUM(k))
+
+    def emit(name, real, twin):
+        def build(stmts, ptrs):
+            pk = Pack("pointers-" + name, cap=3, shorts=False, pointers=2 if ptrs else 0)
+            pk.cell(); pk.cell(); pk.cell()
+            pk.add(stmts)
+            pk.flush()
+            return pk.programs[0]
+        a = build(real, True)
+        a.oracle = build(twin, False)
+        progs.append(a)
+
+    def deref(p):
+        return ('deref', p)
+
+    for yv in (0, 1, 2):
+        setup = [SET(A0(i), NUM(10 * (i + 1))) for i in range(4)] + [SET(A1(0), NUM(5)), SET(A1(1), NUM(6)), SET(A1(2), NUM(0)), SET(A1(3), NUM(8))] + \
+                [SET(v1, NUM(77)), SET(Y, NUM(yv)), SET(X, NUM(1))]
+        P = [SET(p0, VAR('a0'))]
+        emit("deref", setup + P + [SET(R(0), deref(p0))], setup + [SET(R(0), A0(0))])
+        emit("sub-k", setup + P + [SET(R(0), ('idx', 'p0', NUM(2)))], setup + [SET(R(0), A0(2))])
+        emit("sub-Y", setup + P + [SET(R(0), ('idx', 'p0', Y))], setup + [SET(R(0), A0(yv))])
+        emit("inc", setup + [SET(p0, VAR('a1')), ('expr', ('post', '++', p0)), SET(R(0), deref(p0))], setup + [SET(R(0), A1(1))])
+        emit("preinc", setup + [SET(p0, VAR('a1')), ('expr', ('pre', '++', p0)), SET(R(0), ('idx', 'p0', Y))], setup + [SET(R(0), A1(1 + yv))])
+        emit("add", setup + P + [('expr', ('opasg', '+', p0, NUM(1))), SET(R(0), ('idx', 'p0', Y))], setup + [SET(R(0), A0(1 + yv))])
+        emit("dec", setup + P + [('expr', ('opasg', '+', p0, NUM(3))), ('expr', ('post', '--', p0)), SET(R(0), deref(p0))], setup + [SET(R(0), A0(2))])
+        emit("store", setup + P + [SET(deref(p0), NUM(99)), SET(R(0), A0(0))], setup + [SET(A0(0), NUM(99)), SET(R(0), A0(0))])
+        emit("store-Y", setup + P + [SET(('idx', 'p0', Y), v1), SET(R(0), A0(yv))], setup + [SET(A0(yv), v1), SET(R(0), A0(yv))])
+        emit("store-k", setup + P + [SET(('idx', 'p0', NUM(3)), ('bin', '+', v1, NUM(1))), SET(R(0), A0(3))], setup + [SET(A0(3), ('bin', '+', v1, NUM(1))), SET(R(0), A0(3))])
+        emit("sum", setup + P + [SET(R(0), ('bin', '+', deref(p0), ('idx', 'p0', NUM(1))))], setup + [SET(R(0), ('bin', '+', A0(0), A0(1)))])
+        emit("sumY", setup + P + [SET(R(0), ('bin', '-', ('idx', 'p0', Y), v1))], setup + [SET(R(0), ('bin', '-', A0(yv), v1))])
+        emit("rmw", setup + P + [('expr', ('post', '++', ('idx', 'p0', Y))), ('expr', ('opasg', '+', ('idx', 'p0', NUM(1)), NUM(3)))],
+             setup + [('expr', ('post', '++', A0(yv))), ('expr', ('opasg', '+', A0(1), NUM(3)))])
+        emit("cond-deref", setup + P + [verdict(0, ('cmp', '==', deref(p0), NUM(10)))], setup + [verdict(0, ('cmp', '==', A0(0), NUM(10)))])
+        emit("cond-truth", setup + P + [verdict(1, ('idx', 'p0', Y))], setup + [verdict(1, A0(yv))])
+        emit("cond-lt", setup + P + [verdict(2, ('cmp', '<', ('idx', 'p0', Y), v1)), verdict(0, ('cmp', '!=', v1, ('idx', 'p0', Y)))],
+             setup + [verdict(2, ('cmp', '<', A0(yv), v1)), verdict(0, ('cmp', '!=', v1, A0(yv)))])
+        emit("copy", setup + P + [SET(p1, VAR('a1')), SET(('idx', 'p1', Y), ('idx', 'p0', Y)), SET(R(0), A1(yv))],
+             setup + [SET(A1(yv), A0(yv)), SET(R(0), A1(yv))])
+        emit("walk", setup + [SET(R(0), NUM(0)), SET(p0, VAR('a1')), ('while', deref(p0), ('block', [('expr', ('post', '++', p0)), ('expr', ('post', '++', R(0)))])), SET(v0, NUM(0))],
+             setup + [SET(R(0), NUM(0)), SET(v0, NUM(0)), ('while', ('idx', 'a1', v0), ('block', [('expr', ('post', '++', v0)), ('expr', ('post', '++', R(0)))])), SET(v0, NUM(0))])
+        emit("toX", setup + P + [SET(X, ('idx', 'p0', Y)), SET(R(0), X)], setup + [SET(X, A0(yv)), SET(R(0), X)])
+        emit("postinc-deref", setup + P + [SET(R(0), deref(('post', '++', p0))), SET(R(1), deref(p0))], setup + [SET(R(0), A0(0)), SET(R(1), A0(1))])
+    return progs
+
+
 # ----------------------------------------------------------------------------------------------- all
 
 def all_programs(families=None):
     fams = {"update-then-test": update_then_test, "update-then-loop": update_then_loop, "comparisons": comparisons,
             "folded": folded_comparisons, "far": far_branches, "switch": switches, "triples": triples,
-            "precedence": precedence, "loop-headers": loop_headers, "wide": wide}
+            "precedence": precedence, "loop-headers": loop_headers, "wide": wide, "nested": nested, "calls": calls, "pointers": pointers}
     out = []
     for n, f in fams.items():
         if families is None or n in families:
